@@ -20,11 +20,11 @@ CHECKS = {
  "C05": ("5.5", "Generated small exactly-decidable linear/MILP models; every solver's verdict and optimal value compared with an exact rational simplex / branch-and-bound oracle.",
          "Trusted: the exact oracle (cross-checked against enumeration and Fourier-Motzkin on start-up). Known findings of the microlp dependency are matched by instance class + answer.",
          "property-based testing: differential against an exact rational LP/MILP oracle"),
- "C09": ("5.9", "Exhaustive enumeration of all parenthesis-free operator sequences up to 4 (thorough 5) operands plus random trees printed with random spelling; rooc's parse is compared by value at all small assignments with an independent precedence-climbing parser.",
+ "C09": ("5.9", "Exhaustive enumeration of all parenthesis-free operator sequences up to 4 (thorough 5) operands, of all blank-free sequences of symbolic operators up to 3 (thorough 4) operands, plus random trees printed with random spelling; rooc's parse is compared by value at all small assignments with an independent precedence-climbing parser.",
          "Trusted: the reference tokenizer/parser (written from the documented table; self-checked against the harness's own printer on every generated tree).",
          "exhaustive enumeration + property-based testing: differential against an independent reference parser"),
  "C10": ("5.10", "Exhaustive enumeration of all expression trees up to 4 (thorough 5) nodes plus random trees: simplify / flatten compared with the original by exact evaluation at all small well-sorted assignments, idempotence, surviving divisions; generated twin models with re-spelled constants must be accepted alike and denote the same feasible set and objective.",
-         "Trusted: exact reference evaluator; assignments are restricted to the documented domain of the logic operators (0/1 operands); constant folding inside rooc is compared with 1e-12 relative tolerance.",
+         "Trusted: exact reference evaluator; assignments are restricted to the documented domain of the logic operators (0/1 operands); constant folding inside rooc is compared with 1e-12 relative tolerance, and an assignment at which a logic operand of the rewritten tree is within 1e-9 of 0 or 1 without being 0 or 1 is not compared (decided by f64 rounding of a folded constant).",
          "exhaustive enumeration + property-based testing: metamorphic (rewrite / re-spelling must not change meaning)"),
  "C11": ("5.11", "Generated full source texts (random spelling, where-constants, comments, all declaration forms), untyped operator trees, the exhaustive depth-2 nesting table, literal programs with iterations/graphs/escaped names/every builtin, and C06's data-driven generator (driven and unrolled texts, computed subscripts): format() must succeed, re-parse, be idempotent and transform to the same Model.",
          "Trusted: JSON comparison of rooc's own Model (spans stripped).",
@@ -35,16 +35,16 @@ CHECKS = {
  "C13": ("5.13", "Generated continuous models converted to standard form (read through guarded accessors); exact rational oracle checks non-negative right-hand sides, forward and backward correspondence of feasible points with equal objective, equal verdict and optimum.",
          "Trusted: exact LP oracle; the variable correspondence is by name (v, or $pv - $mv), no row/column layout is assumed.",
          "property-based testing: generated models + exact rational feasibility correspondence"),
- "C14": ("5.14", "Generated small models (degenerate vertices, ties, redundant rows, two-phase starts, a fully degenerate class, a class with one badly scaled column) and the classical cycling instances are stepped pivot by pivot; after every step the invariants (equivalent system, unit basis columns, non-negative basic solution satisfying the initial equalities, monotone objective, consistent current value) are checked, the stop verdict is compared with the exact optimum of the original model, the driver must stay within its limit.",
+ "C14": ("5.14", "Generated small models (degenerate vertices, ties, redundant rows, two-phase starts, a fully degenerate class, a class with one badly scaled column) and the classical cycling instances (Beale, Kuhn, Chvatal; alone and embedded among cost-free columns) are stepped pivot by pivot; after every step the invariants (equivalent system, unit basis columns, non-negative basic solution satisfying the initial equalities, monotone objective, consistent current value) are checked, the stop verdict is compared with the exact optimum of the original model, the driver must stay within its limit.",
          "Trusted: f64 invariant checks with 1e-6/1e-7 tolerances; stop verdicts are judged against the exact optimum of the original model (the canonical tableau carries f64 noise); covers the pivot sequences the implementation produces.",
          "property-based testing: invariant checking over generated pivot histories + exact oracle at the stop"),
  "C15": ("5.15", "Generated MILPs (small general ones, 15-28 item knapsacks, knapsacks rescaled to 1e4 / 1e6 / 1e-2 / 1e-3 objective magnitudes, near-tied pick-k-of-n selections) crossed with time limits, MIP gaps (valid and invalid) and deterministic node limits through the guarded hook, via the function and the builder: every returned solution must be feasible and self-consistent, Optimal only within the gap of the exact optimum (rational B&B / dynamic programming), invalid options rejected.",
          "Trusted: exact optimum oracles; the oracle does not depend on where the clock stopped the search, so timing only affects which runs are interrupted.",
          "property-based testing: generated models x option settings + exact optimum oracle + certificate check"),
- "C17": ("5.17", "Generated linear models (all domain kinds, tiny/large (up to 1e30, beyond the 64-bit integers)/negative-zero numbers, offsets, named/unnamed rows incl. names equal to generated ones) exported with to_lp_format() and read back by an independent CPLEX-LP reader; everything is compared field by field with exact f64 equality.",
+ "C17": ("5.17", "Generated linear models (all domain kinds, tiny (down to the smallest subnormal)/large (up to 1e30, beyond the 64-bit integers)/negative-zero numbers, strict < and > rows, offsets, named/unnamed rows incl. names equal to generated ones) exported with to_lp_format() and read back by an independent CPLEX-LP reader; everything is compared field by field with exact f64 equality.",
          "Trusted: the harness's LP reader, written from the format description.",
          "property-based testing: round trip through an independent LP-format reader"),
- "C20": ("5.20", "Generated small LPs (half of them with the objective or one row rescaled by a power of two) kept when the exact oracle certifies the optimal value differentiable in every right-hand side; Clarabel's shadow prices (function and builder doors) must equal the exact slopes obtained by re-solving with perturbed right-hand sides.",
+ "C20": ("5.20", "Generated small LPs (half of them with the objective or one row rescaled by a power of two, a quarter with a looser parallel copy of a row) kept when the exact oracle certifies the optimal value differentiable in every right-hand side; Clarabel's shadow prices (function and builder doors) must equal the exact slopes obtained by re-solving with perturbed right-hand sides.",
          "Trusted: exact LP oracle for the slopes; 1e-5 tolerance on the interior-point duals relative to the larger of the slope and the unit objective / row; degenerate cases are skipped and counted.",
          "property-based testing: generated LPs + exact perturbation (metamorphic) oracle"),
  "C16": ("5.16", "One generated model realised through ModelBuilder (operators, helpers, permuted call order, unused variable), source text (constants inline / where / API), PipeRunner and RoocSolver: linear models identical, verdicts and optimal values equal, builder read-back (var_value, numeric_value, eval, value) equals the reference semantics; the builder expression is assembled through the most specific operator overload for every operand shape (Var / Expr / f64 / i32 / bool on either side, by value or reference); the constraint!/expr! macros are covered by a generated table of all 590 operator sequences of up to 3 operators compared with the reference parser.",
